@@ -1,5 +1,24 @@
+//! C24-C27 (Decimal / PreciseDecimal arithmetic, rounding, roots & powers, text) and C29
+//! (calendar time). Oracles use num-bigint exact arithmetic written from the property text.
+mod fx;
+mod c24;
+mod c25;
+mod c26;
+mod c27;
+mod c29;
+
 fn main() {
     let args = rv_common::parse_args();
-    eprintln!("no check named {}", args.prop);
-    std::process::exit(2);
+    let code = match args.prop.as_str() {
+        "C24" => c24::run(&args),
+        "C25" => c25::run(&args),
+        "C26" => c26::run(&args),
+        "C27" => c27::run(&args),
+        "C29" => c29::run(&args),
+        other => {
+            eprintln!("rv-math: no check named {other}");
+            2
+        }
+    };
+    std::process::exit(code);
 }
